@@ -267,7 +267,14 @@ def register(M):
 
     @ext('builtins.range')
     def _range(interp, args, kw, node):
-        return range(*[int(conc_num(a, node)) for a in args])
+        r = range(*[int(conc_num(a, node)) for a in args])
+        if len(args) == 3 and abs(r.step) > 1:
+            # block-wise processing: remember how many blocks the scenarios ever produced at this site (see Check.check_length_branches)
+            from .interp import Interp
+            rec = Interp.strides.setdefault(id(node), [node, abs(r.step), 0, interp.call_stack[-1] if interp.call_stack else '?'])
+            rec[1] = max(rec[1], abs(r.step))
+            rec[2] = max(rec[2], len(r))
+        return r
 
     @ext('builtins.zip')
     def _zip(interp, args, kw, node):
@@ -448,6 +455,9 @@ def register(M):
                     return True
                 if p in ('collections.abc.Mapping', 'typing.Mapping', 'builtins.dict') and isinstance(v, Instance):
                     return M.is_dict_subclass(v.cls) and hasattr(v, 'dict_data')
+                if isinstance(v, Sc) and p in ('builtins.float', 'builtins.int', 'builtins.bool'):
+                    # numpy scalars: only np.float64 is a Python float subclass; np.int64 / np.int32 / np.float32 / np.bool_ are neither int nor float
+                    return p == 'builtins.float' and v.dtype == 'f8' and not getattr(v, 'narrow', False)
                 return isinstance(v, PYTYPES[p]) and not (p == 'builtins.int' and isinstance(v, Fr))
             if p == 'numpy.ndarray':
                 return isinstance(v, (Vec, Vec2)) and getattr(v, 'kind', '') in ('nd', 'ma')
@@ -455,6 +465,22 @@ def register(M):
                 return isinstance(v, (Vec, Vec2)) and v.kind == 'ma'
             if p == 'numpy.generic':
                 return isinstance(v, Sc)
+            if p in ('numpy.integer', 'numpy.signedinteger', 'numpy.int64', 'numpy.int_', 'numpy.intp'):
+                return isinstance(v, Sc) and v.dtype in ('i8', 'u1')
+            if p in ('numpy.floating', 'numpy.float64', 'numpy.double', 'numpy.inexact'):
+                return isinstance(v, Sc) and v.dtype == 'f8' and (p in ('numpy.floating', 'numpy.inexact') or not getattr(v, 'narrow', False))
+            if p in ('numpy.float32',):
+                return isinstance(v, Sc) and v.dtype == 'f8' and getattr(v, 'narrow', False)
+            if p == 'numpy.number':
+                return isinstance(v, Sc) and v.dtype in ('i8', 'u1', 'f8')
+            if p in ('numpy.bool_', 'numpy.bool'):
+                return isinstance(v, Sc) and v.dtype == 'b1'
+            if p in ('numpy.datetime64', 'numpy.timedelta64'):
+                return isinstance(v, Sc) and v.dtype == ('M8' if p.endswith('datetime64') else 'm8')
+            if p in ('pandas.Timestamp',):
+                return getattr(v, 'abs_kind', None) == 'datetime' and type(v).__name__ == 'TS'
+            if p in ('pandas.Timedelta', 'datetime.timedelta'):
+                return isinstance(v, Sc) and v.dtype == 'm8'
             if p == 'pandas.Series':
                 return isinstance(v, Vec) and v.kind == 'series'
             if p == 'pandas.Index':
@@ -499,6 +525,35 @@ def register(M):
             raise AnalysisError(f'namedtuple: {e}', node)
 
     # ---- warnings / logging -----------------------------------------------------------------
+    @ext('datetime.timedelta')
+    def _timedelta(interp, args, kw, node):
+        """stdlib fact: timedelta accepts Python ints / floats (np.float64 is a float) and rejects other numpy scalars with TypeError"""
+        names = ['days', 'seconds', 'microseconds', 'milliseconds', 'minutes', 'hours', 'weeks']
+        unit = {'days': 86400, 'seconds': 1, 'microseconds': Fr(1, 10 ** 6), 'milliseconds': Fr(1, 1000), 'minutes': 60, 'hours': 3600, 'weeks': 604800}
+        vals = dict(zip(names, args))
+        vals.update(kw)
+        total = Fr(0)
+        for k, v in vals.items():
+            if k not in unit:
+                raise AbsRaise(ExcVal('TypeError', (f"'{k}' is an invalid keyword argument for timedelta",)), node)
+            if isinstance(v, Sc) and (v.dtype != 'f8' or getattr(v, 'narrow', False)):
+                raise AbsRaise(ExcVal('TypeError', (f'unsupported type for timedelta {k} component: numpy scalar',)), node)
+            total += conc_num(v, node) * unit[k]
+        # rounded to microseconds like the real type
+        total = Fr(round(total * 10 ** 6), 10 ** 6)
+        return Sc(X.num(total), 'm8', 'us')
+
+    @ext('weakref.ref')
+    def _weakref(interp, args, kw, node):
+        obj = args[0]
+        if isinstance(obj, (int, str, tuple, list, dict, Fr, float)) or obj is None:
+            raise AbsRaise(ExcVal('TypeError', (f"cannot create weak reference to '{type(obj).__name__}' object",)), node)
+        return PyCallable(lambda it, a, k, n, _o=obj: _o, 'weakref')       # the referent stays alive for the duration of the analysed call
+
+    @ext('weakref.finalize')
+    def _finalize(interp, args, kw, node):
+        return PyCallable(lambda it, a, k, n: None, 'finalize')
+
     @ext('contextlib.suppress')
     def _suppress(interp, args, kw, node):
         cm = ContextMgr(None)
